@@ -75,15 +75,17 @@ CLAIMED = {
         "MovingWindowDefs.tla, MovingWindow.tla, Trace_MovingWindow.tla",
         "TLC checks the window construction, the where() scan automaton (one action per loop iteration, "
         "with its scan invariant) and the arg-max per run against the set-theoretic definition of maximal "
-        "runs and peaks, plus time reversal, for every score table / half-integer threshold / "
+        "runs and peaks, plus time reversal, for every score table / threshold in steps of 1/2 (ties with a score "
+        "included: exceeds is strict) / "
         "min_detection_interval within the constants; each case is replayed through the module functions "
         "and the MovingWindow class with a table change score keyed by the exact cut (t-b, t, t+b) (any "
         "other window scores a hash value and shows in transform_scores), also on the reversed table; "
         "recorded runs with CUSUM and cost-based scores on lattice data and on the reversed series are "
         "validated by TLC (Trace_MovingWindow).",
-        "Bounded: exhaustive tables for n<=9/10, b<=3/4, values 0..3; sampled built-in scores n<=35; runs "
-        "whose score is within tol*unit of the threshold are not judged; class-level min_detection_interval>1 "
-        "only in stage C (constructor requires bandwidth>=6).",
+        "Bounded: exhaustive tables for n<=9/10, b<=3/4, values 0..3; sampled built-in scores n<=35; score VALUES "
+        "are judged within tol*unit, the runs of exceedances and their peaks exactly (dense ranks of the detector's "
+        "own scores and threshold_, tuned thresholds that coincide with a training score included); class-level "
+        "min_detection_interval>1 only in stage C (constructor requires bandwidth>=6).",
         "TLA+ scan-automaton model checked with TLC + spec-to-code replay + trace validation",
     ),
     "C07": (
@@ -91,7 +93,7 @@ CLAIMED = {
         "GreedyDefs.tla, SeededBinseg.tla, Trace_Binseg.tla",
         "TLC checks the zeroing while-loop of greedy_changepoint_selection (one action per turn, any tie "
         "resolution) against the recursive greedy definition for every set of up to K admissible candidate "
-        "intervals with every (score, arg-max) assignment and half-integer threshold within the constants "
+        "intervals with every (score, arg-max) assignment and threshold in steps of 1/2 (ties included) within the constants "
         "(characterisation, support, nothing left, spacing, threshold monotonicity as a prefix property); "
         "cases are replayed through the selection function, and recorded SeededBinarySegmentation runs "
         "(integer score tables over all cuts with frequent ties; built-in scores; the (n, M, L, growth) grid "
@@ -100,7 +102,9 @@ CLAIMED = {
         "thresholds are monotone.",
         "The interval construction itself (geomspace, rounding) is an input to the spec: only admissibility "
         "and non-emptiness are required, as the property states. Exhaustive for n<=6/8, K<=3; sampled n<=24; "
-        "runs with a score within tol*unit of the threshold are not judged (R3).",
+        "score VALUES are judged within tol*unit (R3), the greedy selection exactly (dense ranks of the reported "
+        "scores and threshold_; tuned and zero thresholds included); a call that does not return within 10-20 s "
+        "on these small inputs is the verdict does_not_terminate.",
         "TLA+ greedy-loop model checked with TLC + spec-to-code replay + trace validation",
     ),
     "C09": (
@@ -179,7 +183,7 @@ CLAIMED = {
     ),
     "C10": (
         "7/C10",
-        "Lifecycle.tla",
+        "Lifecycle.tla, UpdateMerge.tla",
         "TLC explores every history up to the length bound of set_params / clone / fit / update / predict / "
         "transform / transform_scores calls on two detector slots and fit / evaluate calls on their scorer "
         "objects over four datasets (different n and p, overlapping and disjoint index), with the scorer "
@@ -188,9 +192,12 @@ CLAIMED = {
         "place, fitted attributes) and checks that every returned value is the term of (hyper-parameters, "
         "training data, argument), that update is a refit on the combined data and that only set_params / "
         "clone change hyper-parameters; the emitted histories (exhaustive slices of length 3, simulated "
-        "length 6) are executed on six real detector pairs and every result is compared bitwise with a "
-        "fresh object built from the term alone; get_params() and all input frames are compared before and "
-        "after every call.",
+        "length 6) are executed on eleven real detector pairs (one of them an anomaliser constructed around the "
+        "user's own detector object) and every result is compared bitwise with a fresh object built from the "
+        "term alone; get_params() and all input frames are compared before and after every call.  UpdateMerge.tla: "
+        "every history fit(B1), update(B2), update(B3) over ALL non-empty label sets (appended, overlapping, re-sent, "
+        "interleaved, gappy) against the label-merged table, replayed x 5 index kinds into a user-defined detector "
+        "that records what _fit receives and into PELT / tuned MovingWindow against a fresh fit.",
         "Histories longer than the bound are sampled by TLC simulation; a step that raises ends the replay "
         "of that history; StatThresholdAnomaliser's scorer is excluded from the aliasing steps because it "
         "fits a clone (documented); sktime's clone/reset are exercised, not specified.",
